@@ -176,6 +176,11 @@ func (n netPlan) policy(rng *vh.Rand, start time.Time) msgnet.Policy {
 		if rng.Chance(p) {
 			return nil
 		}
+		// a duplicating link: requests and responses of the tube set-up may
+		// arrive a second time much later (around or after the close / Stop)
+		if len(data) >= 2 && data[1]&3 != 0 && rng.Chance(0.3) {
+			return []msgnet.Delivery{{Data: data}, {Data: data, Delay: time.Duration(rng.Pick(1, 50, 400, 1500, 3000, 3500)) * time.Millisecond}}
+		}
 		return []msgnet.Delivery{{Data: data}}
 	}
 }
@@ -356,7 +361,87 @@ func deadFromStart(r *vh.Runner, c *vh.Case, i int) {
 	}
 }
 
+// dupAckThenClose: the network repeats one acknowledgement far beyond the
+// duplicate-ack limit (a duplicating link; nothing is lost). Whatever the tube
+// makes of that, both ends can still close: Close and WaitForClose return
+// within the bound against a cooperative peer, and Stop completes.
+func dupAckThenClose(r *vh.Runner, c *vh.Case, i int) {
+	rng := vh.NewRand(r.Seed, "c16-dupack", i)
+	cfgTimeout := 1500 * time.Millisecond
+	bound := cfgTimeout + 13*time.Second
+	nw := msgnet.NewPair()
+	A := tubes.Client(nw.A, &tubes.Config{Timeout: cfgTimeout, Log: quietLog()})
+	B := tubes.Server(nw.B, &tubes.Config{Timeout: cfgTimeout, Log: quietLog()})
+	acc := make(chan tubes.Tube, 4)
+	go func() {
+		for {
+			t, err := B.Accept()
+			if err != nil {
+				return
+			}
+			acc <- t
+		}
+	}()
+	a, err := A.CreateReliableTube(3)
+	if err != nil {
+		c.Inconclusive("create: " + err.Error())
+		return
+	}
+	var b *tubes.Reliable
+	select {
+	case t := <-acc:
+		b, _ = t.(*tubes.Reliable)
+	case <-time.After(5 * time.Second):
+	}
+	if b == nil {
+		c.Inconclusive("accept timed out")
+		return
+	}
+	go func() {
+		buf := make([]byte, 4096)
+		for {
+			if _, err := b.Read(buf); err != nil {
+				return
+			}
+		}
+	}()
+	for k := 0; k < 25+rng.Intn(30); k++ {
+		a.Write(rng.Bytes(1 + rng.Intn(500)))
+		time.Sleep(time.Millisecond)
+	}
+	time.Sleep(50 * time.Millisecond)
+	info := a.VerifInfo()
+	storm := 120 + rng.Intn(200)
+	for k := 0; k < storm; k++ {
+		nw.Inject(1, tubes.VerifFrameToBytes(tubes.VerifFrame{TubeID: a.GetID(), REL: true, ACK: true, AckNo: uint32(info.PeerAcked), FrameNo: info.RecvNext}), 0)
+	}
+	time.Sleep(20 * time.Millisecond)
+	r.Count("evaluations", 1)
+	r.Count("duplicate_ack_storms", 1)
+	r.Nontrivial(fmt.Sprintf("dupack|%d", i))
+	fail := func(call string) {
+		c.Violate("C16:call-does-not-return:"+call+":after-duplicate-ack-storm", map[string]any{"duplicate_acks": storm, "bound": bound.String(), "state_a": stateName(a), "state_b": stateName(b)})
+	}
+	if !bub.Within(bub.Go(func() { a.Close(); b.Close() }), bound) {
+		fail("Tube.Close")
+		return
+	}
+	if !bub.Within(bub.Go(func() { a.WaitForClose(); b.WaitForClose() }), bound) {
+		fail("Tube.WaitForClose")
+		return
+	}
+	if !bub.Within(bub.Go(func() { A.Stop(); B.Stop() }), bound) {
+		fail("Muxer.Stop")
+	}
+}
+
 func genC16(r *vh.Runner) {
+	na := r.Pick(6, 150)
+	for i := 0; i < na; i++ {
+		r.Case(fmt.Sprintf("dup-ack-storm-then-close/%d", i), map[string]any{"case": i}, func(c *vh.Case) {
+			c.Bubble(func() { dupAckThenClose(r, c, i) })
+		})
+	}
 	nd := r.Pick(8, 200)
 	for i := 0; i < nd; i++ {
 		r.Case(fmt.Sprintf("dead-from-start/%d", i), map[string]any{"case": i}, func(c *vh.Case) {
